@@ -2,7 +2,7 @@
    Statements only; proofs in Proofs/LimitProofs.v.  Models: Model/Limit.v (run validators over the regenerated
    Gen_limit tables).  `closed` is the networkx representation invariant "edge endpoints are nodes". *)
 From stdpp Require Import strings gmap sets.
-From CG Require Import Model.Limit Proofs.LimitProofs Proofs.LimitLint Proofs.LimitTotal Proofs.LimitApi.
+From CG Require Import Model.Limit Proofs.LimitProofs Proofs.LimitLint Proofs.LimitTotal Proofs.LimitApi Proofs.LimitApiRegs.
 Open Scope string_scope.
 
 (* obligation on the tables regenerated from tx.py: for every multi-input type t, gatemap t is the non-inverting
@@ -72,6 +72,12 @@ Print Assumptions C05_limit_fanin_api.
 Theorem C05_limit_fanout_api : ∀ C k steps C', closed (c_g C) → limit_fanout_run_api C k steps = Ok C' → limit_fanout_run C k steps = Ok C'.
 Proof. intros C k steps C'. exact (limit_fanout_run_api_sound C k steps C' C05_tables_ok). Qed.
 Print Assumptions C05_limit_fanout_api.
+
+(* insert_registers with its default arguments, written with disconnect_g / add_g(uid) / add_blackbox (pins, connections) *)
+Theorem C05_insert_registers_api : ∀ C s order C', closed (c_g C) →
+  insert_registers_api default_reg_args C s order = Ok C' → insert_registers C s order = Ok C'.
+Proof. exact insert_registers_api_sound. Qed.
+Print Assumptions C05_insert_registers_api.
 
 (* termination / non-rejection: for EVERY well-formed circuit (networkx invariant, lint-clean, names that `add` accepts,
    no edge out of a bb_input -- `connect` never makes one) and every k >= 2 the validators accept SOME step list, i.e.
